@@ -1762,6 +1762,9 @@ def _null_expr(e, st):
         if t is False:
             return _null_expr(e.orelse, st)
         return _null_expr(e.body, st) | _null_expr(e.orelse, st)
+    if isinstance(e, ast.BoolOp) and isinstance(e.op, ast.Or) and _null_expr(e.values[-1], st) == {_NN}:
+        # `a or b` is a truthy earlier operand (None is falsy) or the last one
+        return frozenset({_NN})
     v = nullness.expr_nullness(e, _null_view(st))
     return frozenset({_N} if v == nullness.NONE else {_NN} if v == nullness.NOTNONE else {_UNK})
 
@@ -1909,6 +1912,12 @@ def d4_criteria(ck):
             # that is not the neutral element is a bound that CAN stop the loop
             x = fi.expand(v)
             verdict = classify(x, forms, scope=set(P))
+            if verdict[0] != 'match':
+                # a selection (`np.inf if n is None else n`, `cutoff or 0`) that
+                # reduces to the neutral element when the criterion is None
+                av = av_of(x, {name: ('none',)})
+                if (av[0] in ('inf', 'inf2')) if name == NC else (av[0] == 'num' and av[1] == 0):
+                    verdict = ('match', {})
             if verdict[0] == 'near' and verdict[1] > 1 and _mentions_infinity(x):
                 verdict = ('far',) + tuple(verdict[1:])     # some spelling of an infinity the rule does not know
             ck.decide(verdict, rule + '.default', mod, s, 'kcenters', u(s),
@@ -2101,6 +2110,7 @@ def d5_triangle(ck):
                     verdict = ('near', 1, None)
                 if verdict[0] == 'match':
                     srcs.append((site, _cc_source_kind(x, T, L, CS), _none_guarded(fi, site, CS)))
+                    _d5_centre_kind(ck, rule + '.centre-kind', mod, q, fi, site, x, CS or 'centers', DM)
                 ck.decide(verdict, rule + '.centre-dists', mod, site, q, u(site)[:160],
                           'centre-to-new-centre distances come from the current centres',
                           'cc_dists must be the distances between the current centres and the new centre')
@@ -2109,6 +2119,7 @@ def d5_triangle(ck):
             verdict = cc_verdict(x) if x is not None else 'far'
             if verdict[0] == 'match':
                 srcs.append((s, _cc_source_kind(x, T, L, CS), _none_guarded(fi, s, CS)))
+                _d5_centre_kind(ck, rule + '.centre-kind', mod, q, fi, s, x, CS or 'centers', DM)
             ck.decide(verdict, rule + '.centre-dists', mod, s, q, u(cc),
                       'centre-to-new-centre distances come from the current centres',
                       'cc_dists must be the distances between the current centres and the new centre')
@@ -2196,6 +2207,53 @@ def d5_triangle(ck):
                       'plain branch must assign %s(%s, %s) to `%s`' % (DM, T, NEW, pname))
     ck.floor(rule + '.threshold', n, 2, 'triangle-inequality sites')
     _d5_centre_source(ck, rule + '.centre-source', mod, sources)
+
+
+_TRAJ_ATTRS = ('xyz', 'top', 'topology', 'n_atoms', 'n_frames', 'unitcell_lengths', 'unitcell_vectors')
+
+
+def _d5_centre_kind(ck, rule, mod, q, fi, site, x, CS, DM):
+    """A recognised centre-to-new-centre computation on the centre list comes
+    in two spellings: one metric call PER CENTRE OBJECT (what a list of
+    trajectory frames needs: they cannot be stacked into an ndarray) and one
+    call on the centres STACKED into an array (what plain vectors need: the
+    metric takes a 2-d data array, a single vector is not one).  Where the
+    function tells the two kinds apart by a trajectory attribute of a centre,
+    each spelling must sit on the arm of its kind."""
+    if not CS:
+        return
+    xs = _strip(x)
+    kind = None
+    for n in ast.walk(xs):
+        if isinstance(n, ast.comprehension) and isinstance(n.iter, ast.Name) and n.iter.id == CS:
+            kind = 'each'
+    if kind is None and isinstance(xs, ast.Call) and isinstance(xs.func, ast.Name) and xs.func.id == DM and xs.args \
+            and CS in names_loaded(xs.args[0]):
+        kind = 'stacked'
+    if kind is None:
+        return
+    traj = None
+    for f in dominating_facts(fi, site):
+        if isinstance(f, Cmp) or f[0] != 'expr':
+            continue
+        e = f[1]
+        if isinstance(e, ast.Call) and isinstance(e.func, ast.Name) and e.func.id == 'hasattr' and len(e.args) == 2 \
+                and not e.keywords and isinstance(e.args[1], ast.Constant) and e.args[1].value in _TRAJ_ATTRS \
+                and CS in names_loaded(e.args[0]):
+            if traj is not None and traj != f[2]:
+                return
+            traj = f[2]
+    if traj is None:
+        return
+    ck.check((kind == 'each') == traj, rule, mod, site, q,
+             '%s centres measured %s' % ('trajectory-like' if traj else 'array', 'one by one' if kind == 'each' else 'stacked into one array'),
+             'each kind of centre is measured by the spelling that fits it',
+             'the shortcut measures d(centre, new centre) %s on the arm where the centres %s a trajectory attribute: %s, so '
+             'with use_triangle_inequality the run fails (or prunes with garbage) although the plain algorithm succeeds' % (
+                 'with one metric call per centre' if kind == 'each' else 'on np.array(<centres>)',
+                 'have' if traj else 'do NOT have',
+                 'a list of trajectory frames cannot be stacked into an ndarray' if traj else
+                 'a single feature vector is not a 2-d data array the metric accepts (the built-in metrics raise DataInvalid)'))
 
 
 def _cc_source_kind(x, T, L, CS):
@@ -2486,13 +2544,717 @@ def d5_sole_writer(ck):
         ck.missing(rule, 'kcenters: `%s` writes to the running-minimum distance array `%s`' % (u(st)[:100], D))
 
 
+# ---------------------------------------------------------------------------
+# Abstract execution of the prologue of kcenters over the finite domain of
+# admissible configurations (fifth wave).  Nothing of /repo is executed: the
+# branch conditions in front of the main loop are evaluated SYMBOLICALLY on
+# abstract values (None / +inf / "the caller's finite count" / 0 / "the
+# caller's positive cutoff" / True / False / "some object"), a truth table
+# over syntactic conditions.
+
+AV_UNK = ('?',)
+_INF = float('inf')
+_AV_NUM = {'inf': (_INF, False, _INF, False), 'inf2': (_INF, False, _INF, False),
+           'fin': (1, False, _INF, True), 'zero': (0, False, 0, False), 'pos': (0, True, _INF, True)}
+_AV_SHOW = {'none': 'None', 'inf': 'np.inf', 'inf2': 'inf', 'fin': '<finite count k>', 'zero': '0', 'pos': '<cutoff c > 0>',
+            'given': '<given>', '?': '<unknown>'}
+
+
+def _av_show(v):
+    if v[0] in ('bool', 'num', 'func'):
+        return str(v[1])
+    return _AV_SHOW.get(v[0], v[0])
+
+
+def _av_interval(v):
+    """(lo, lo_open, hi, hi_open) of a numeric abstract value, else None."""
+    if v[0] in _AV_NUM:
+        return _AV_NUM[v[0]]
+    if v[0] == 'num':
+        return (v[1], False, v[1], False)
+    if v[0] == 'bool':
+        return (int(v[1]), False, int(v[1]), False)
+    return None
+
+
+def _iv_lt(a, b):
+    """a < b for EVERY pair of members (True), for NO pair (False), else None."""
+    alo, _, ahi, ahi_o = a
+    blo, blo_o, bhi, _ = b
+    if ahi < blo or (ahi == blo and (ahi_o or blo_o)):
+        return True
+    if alo >= bhi:
+        return False
+    return None
+
+
+def _iv_le(a, b):
+    alo, alo_o, ahi, _ = a
+    blo, _, bhi, bhi_o = b
+    if ahi <= blo:
+        return True
+    if alo > bhi or (alo == bhi and (alo_o or bhi_o)):
+        return False
+    return None
+
+
+def _iv_eq(a, b):
+    if a[0] == a[2] == b[0] == b[2] and not (a[1] or a[3] or b[1] or b[3]):
+        return True
+    if _iv_lt(a, b) is True or _iv_lt(b, a) is True:
+        return False
+    return None
+
+
+_INF_TEXTS = None
+
+
+def av_of(e, env):
+    """Abstract value of an expression: the value of a name in `env`, a
+    constant, a spelling of +inf, a conditional / boolean selection between
+    such values; AV_UNK for everything else (any computation)."""
+    global _INF_TEXTS
+    if _INF_TEXTS is None:
+        _INF_TEXTS = {C(f) for f in INF_FORMS}
+    if isinstance(e, ast.Name):
+        if e.id in env:
+            return env[e.id]
+        if e.id in ITER_FUNCS:
+            return ('func', e.id)
+        return AV_UNK
+    if isinstance(e, ast.Constant):
+        v = e.value
+        if v is None:
+            return ('none',)
+        if isinstance(v, bool):
+            return ('bool', v)
+        if isinstance(v, (int, float)):
+            if v != v:
+                return AV_UNK
+            return ('inf2',) if v == _INF else ('num', v)
+        return AV_UNK
+    k = const_value(e)
+    if isinstance(k, (int, float)) and not isinstance(k, bool) and k == k and abs(k) != _INF:
+        return ('num', k)
+    if isinstance(e, (ast.Attribute, ast.Call)):
+        t = ctext(e)
+        if t == C('np.inf'):
+            return ('inf',)
+        if t in _INF_TEXTS:
+            return ('inf2',)
+        return AV_UNK
+    if isinstance(e, ast.IfExp):
+        t = av_truth(e.test, env)
+        if t is True:
+            return av_of(e.body, env)
+        if t is False:
+            return av_of(e.orelse, env)
+        a, b = av_of(e.body, env), av_of(e.orelse, env)
+        return a if a == b else AV_UNK
+    if isinstance(e, ast.BoolOp):
+        stop_on = isinstance(e.op, ast.Or)
+        for x in e.values[:-1]:
+            v = av_of(x, env)
+            tv = _av_truthy(v)
+            if tv is None:
+                return AV_UNK
+            if tv is stop_on:
+                return v
+        return av_of(e.values[-1], env)
+    return AV_UNK
+
+
+def _av_truthy(v):
+    k = v[0]
+    if k in ('none', 'zero'):
+        return False
+    if k in ('inf', 'inf2', 'fin', 'pos', 'func'):
+        return True
+    if k in ('bool', 'num'):
+        return bool(v[1])
+    return None         # an object (array truthiness is not a scalar) / unknown
+
+
+def _av_cmp(a, op, b):
+    if a == AV_UNK or b == AV_UNK:
+        return None
+    ia, ib = _av_interval(a), _av_interval(b)
+    if op in (ast.Is, ast.IsNot):
+        r = None
+        if a[0] == 'none' or b[0] == 'none':
+            r = a[0] == b[0]
+        elif a[0] == b[0] == 'inf':
+            r = True            # the one object np.inf (the default of n_clusters)
+        elif a[0] == b[0] and a[0] in ('bool', 'func'):
+            r = a[1] == b[1]
+        elif ia is not None and ib is not None and _iv_eq(ia, ib) is False:
+            r = False           # different numbers are never the same object
+        elif (ia is None) != (ib is None) and 'given' not in (a[0], b[0]):
+            r = False           # a number and a function
+        if r is None:
+            return None
+        return r if op is ast.Is else not r
+    if op in (ast.Eq, ast.NotEq):
+        r = None
+        if 'given' in (a[0], b[0]):
+            return None         # == on arrays is elementwise
+        if a[0] == 'none' or b[0] == 'none':
+            r = a[0] == b[0]
+        elif ia is not None and ib is not None:
+            r = _iv_eq(ia, ib)
+        if r is None:
+            return None
+        return r if op is ast.Eq else not r
+    if ia is None or ib is None:
+        return None
+    if op is ast.Lt:
+        return _iv_lt(ia, ib)
+    if op is ast.LtE:
+        return _iv_le(ia, ib)
+    if op is ast.Gt:
+        return _iv_lt(ib, ia)
+    if op is ast.GtE:
+        return _iv_le(ib, ia)
+    return None
+
+
+def av_truth(t, env):
+    """Three-valued truth of a branch condition on abstract values."""
+    if isinstance(t, ast.BoolOp):
+        vals = [av_truth(x, env) for x in t.values]
+        if isinstance(t.op, ast.And):
+            return False if any(v is False for v in vals) else True if all(v is True for v in vals) else None
+        return True if any(v is True for v in vals) else False if all(v is False for v in vals) else None
+    if isinstance(t, ast.UnaryOp) and isinstance(t.op, ast.Not):
+        v = av_truth(t.operand, env)
+        return None if v is None else not v
+    if isinstance(t, ast.Compare):
+        res, left = True, t.left
+        for op, right in zip(t.ops, t.comparators):
+            r = _av_cmp(av_of(left, env), type(op), av_of(right, env))
+            if r is False:
+                return False
+            if r is None:
+                res = None
+            left = right
+        return res
+    if isinstance(t, ast.Call):
+        cn = (call_name(t) or '').replace('numpy.', 'np.')
+        if cn in ('np.isinf', 'math.isinf', 'np.isfinite', 'math.isfinite') and len(t.args) == 1 and not t.keywords:
+            v = av_of(t.args[0], env)
+            iv = _av_interval(v)
+            if iv is None or v[0] == 'bool':
+                return None
+            isinf = True if v[0] in ('inf', 'inf2') else False
+            return isinf if cn.endswith('isinf') else not isinf
+        if cn == 'bool' and len(t.args) == 1 and not t.keywords:
+            return av_truth(t.args[0], env)
+        return None
+    return _av_truthy(av_of(t, env))
+
+
+def _definitely_evaluated(e, env):
+    """Sub-expressions of `e` that ARE evaluated when `e` is, under the
+    abstract environment: the arms of a conditional expression / the later
+    operands of and/or only when the deciding value is known."""
+    stack = [e]
+    while stack:
+        n = stack.pop()
+        if isinstance(n, ast.Lambda):
+            continue
+        yield n
+        if isinstance(n, ast.IfExp):
+            stack.append(n.test)
+            t = av_truth(n.test, env)
+            if t is True:
+                stack.append(n.body)
+            elif t is False:
+                stack.append(n.orelse)
+            continue
+        if isinstance(n, ast.BoolOp):
+            go_on = isinstance(n.op, ast.And)
+            for x in n.values:
+                stack.append(x)
+                if av_truth(x, env) is not go_on:
+                    break
+            continue
+        if isinstance(n, (ast.ListComp, ast.SetComp, ast.GeneratorExp, ast.DictComp)):
+            # only the first iterable is evaluated for sure
+            if n.generators:
+                stack.append(n.generators[0])
+            continue
+        if isinstance(n, ast.comprehension):
+            stack.append(n.iter)
+            continue
+        for ch in ast.iter_child_nodes(n):
+            stack.append(ch)
+
+
+_ITERATING = ('len', 'list', 'tuple', 'enumerate', 'iter', 'sorted', 'set', 'zip')
+
+
+def _none_iterations(node, env):
+    """Names that hold None in `env` and are iterated / measured when control
+    is at statement `node` (a certain TypeError)."""
+    from ..cfg import header_exprs
+    out = []
+    for e in header_exprs(node):
+        if isinstance(node, (ast.For, ast.AsyncFor)) and e is node.target:
+            continue
+        for x in _definitely_evaluated(e, env):
+            it = None
+            if isinstance(x, ast.comprehension):
+                it = x.iter
+            elif isinstance(x, ast.Call) and isinstance(x.func, ast.Name) and x.func.id in _ITERATING and x.args \
+                    and x.func.id not in env:
+                it = x.args[0]
+            if isinstance(it, ast.Name) and env.get(it.id) == ('none',):
+                out.append(it.id)
+    if isinstance(node, (ast.For, ast.AsyncFor)) and isinstance(node.iter, ast.Name) and env.get(node.iter.id) == ('none',):
+        out.append(node.iter.id)
+    return out
+
+
+def _av_step(node, env, sites, events):
+    from ..cfg import stmt_defs
+    for nm in _none_iterations(node, env):
+        events = events + ((node, nm),)
+    new, ns = dict(env), dict(sites)
+
+    def bind(name, v):
+        new[name] = v
+        ns[name] = node
+    if isinstance(node, ast.Assign):
+        for t in node.targets:
+            if isinstance(t, ast.Name):
+                bind(t.id, av_of(node.value, env))
+            elif isinstance(t, (ast.Tuple, ast.List)) and isinstance(node.value, (ast.Tuple, ast.List)) \
+                    and len(t.elts) == len(node.value.elts) \
+                    and not any(isinstance(x, ast.Starred) for x in list(t.elts) + list(node.value.elts)):
+                for te, ve in zip(t.elts, node.value.elts):
+                    if isinstance(te, ast.Name):
+                        bind(te.id, av_of(ve, env))
+                    else:
+                        for nm in target_names(te):
+                            bind(nm, AV_UNK)
+            else:
+                for nm in target_names(t):
+                    bind(nm, AV_UNK)
+    elif isinstance(node, ast.AnnAssign) and node.value is not None and isinstance(node.target, ast.Name):
+        bind(node.target.id, av_of(node.value, env))
+    else:
+        for nm in stmt_defs(node):
+            bind(nm, AV_UNK)
+    return new, ns, events
+
+
+def explore_prologue(fi, w, env0, fuel=20000):
+    """Abstract execution of the analysed function from its entry up to the
+    main loop `w` (or an uncaught raise / a return) under the abstract
+    environment env0.  Returns a list of outcomes
+    (kind, node, env, sites, definite, events): kind is 'loop' / 'raise' /
+    'return'; `sites` maps a name to the statement that bound it last;
+    `definite` says that every branch condition crossed was decided by the
+    abstract values (so the path IS the one taken by every input of the
+    configuration); `events` are (statement, name) pairs where a name holding
+    None was iterated.  None if the exploration ran out of fuel."""
+    cfg = fi.cfg
+    out, seen = [], set()
+    stack = [(ENTRY, env0, {}, True, ())]
+    while stack:
+        fuel -= 1
+        if fuel < 0:
+            return None
+        node, env, sites, definite, events = stack.pop()
+        key = (node if isinstance(node, str) else id(node), tuple(sorted(env.items())), definite, len(events))
+        if key in seen:
+            continue
+        seen.add(key)
+        if node is w:
+            out.append(('loop', node, env, sites, definite, events))
+            continue
+        if node == EXIT:
+            continue
+        succ = cfg.succ.get(node, [])
+        if isinstance(node, ast.Raise) and all(s == EXIT for s in succ):
+            out.append(('raise', node, env, sites, definite, events))
+            continue
+        if isinstance(node, ast.Return):
+            out.append(('return', node, env, sites, definite, events))
+            continue
+        if isinstance(node, Assume):
+            t = av_truth(node.test, env)
+            if t is not None and t != node.polarity:
+                continue
+            if t is None:
+                # an undecided test: the path stays representative only on the
+                # continuing arm of a guard clause (`if <check>: raise`): the
+                # inputs of the configuration that pass the check take it
+                sib = [b for b in cfg.nodes if isinstance(b, Assume) and b.owner is node.owner and b is not node]
+                if not (cfg.reachable(node, w) and sib and not any(cfg.reachable(b, w) for b in sib)):
+                    definite = False
+        elif node != ENTRY:
+            env, sites, events = _av_step(node, env, sites, events)
+        for s in succ:
+            if isinstance(s, ast.ExceptHandler) and not isinstance(node, ast.Raise):
+                continue        # exceptional edge out of a try body
+            stack.append((s, env, sites, definite, events))
+    return out
+
+
+def _configurations(fn, NC, DC):
+    """The admissible configurations of kcenters as abstract environments:
+    at least one stopping criterion present, first centre not random, every
+    other optional parameter in each of its states.  [(description, env)]"""
+    from ..core import param_default
+    P = params(fn)
+    free = []
+    for p in P:
+        if p in (NC, DC):
+            continue
+        if p == 'random_first_center':
+            free.append((p, [('bool', False)]))
+            continue
+        d = param_default(fn, p)
+        if isinstance(d, ast.Constant) and d.value is None:
+            free.append((p, [('none',), ('given',)]))
+        elif isinstance(d, ast.Constant) and isinstance(d.value, bool):
+            free.append((p, [('bool', False), ('bool', True)]))
+        else:
+            free.append((p, [('given',)]))
+    crit = [(n, d) for n in (('none',), ('inf',), ('fin',)) for d in (('none',), ('zero',), ('pos',))
+            if n == ('fin',) or d == ('pos',)]
+    out = []
+    for n, d in crit:
+        for vals in itertools.product(*[v for _, v in free]):
+            env = {NC: n, DC: d}
+            env.update({p: v for (p, _), v in zip(free, vals)})
+            desc = '%s=%s, %s=%s' % (NC, _av_show(n), DC, _av_show(d))
+            out.append((desc, env))
+    return out
+
+
+def d4_configurations(ck):
+    """Every admissible configuration (a cluster number, a radius cutoff or
+    both; with / without initial centres; serial / MPI) must REACH the main
+    loop, with the criteria the caller gave (a missing one replaced by its
+    neutral element), with the cold-start state exactly when no centres were
+    supplied, and with the iteration function of its mode."""
+    mod = ck.repo.mod(KC)
+    rule_a, rule_b, rule_c = 'C02.D4.criteria.admit', 'C02.D1.coldstart.arm', 'C02.D1.farthest.mode'
+    K = kcenters_roles(ck, rule_a, mod)
+    if K is None:
+        return
+    fn, fi, w, call = K['fn'], K['fi'], K['loop'], K['call']
+    NC, DC, D, MPI = K['NC'], K['DC'], K['D'], K['MPI']
+    P = params(fn)
+    IC = 'init_centers' if 'init_centers' in P else None
+    if IC is None:
+        ck.missing(rule_b, 'parameter init_centers of kcenters (the property quantifies over runs with initial centres)')
+    callee = call.func.id if isinstance(call.func, ast.Name) and call.func.id not in ITER_FUNCS else None
+    bads, missings, reached = {}, {}, {}
+
+    def add(d, key, val, desc):
+        d.setdefault(key, (val, []))[1].append(desc)
+    for desc, env in _configurations(fn, NC, DC):
+        outs = explore_prologue(fi, w, env)
+        if outs is None:
+            ck.missing(rule_a, 'abstract execution of the prologue of kcenters did not terminate')
+            return
+        for kind, node, e2, sites, definite, events in outs:
+            if kind == 'raise':
+                if definite:
+                    add(bads, (rule_a, id(node), 'raise'), (node, None), desc)
+                continue
+            if kind != 'loop':
+                continue
+            # (a) the criteria at the guard
+            good = True
+            for name, given in ((NC, env[NC]), (DC, env[DC])):
+                got = e2.get(name, AV_UNK)
+                if name == NC:
+                    ok = got[0] in ('inf', 'inf2') if given[0] in ('none', 'inf') else got == ('fin',)
+                else:
+                    ok = (got == ('zero',) or (got[0] == 'num' and got[1] == 0)) if given[0] in ('none', 'zero') else got == ('pos',)
+                if ok or got == ('none',):          # None at the guard: C02.D4.criteria
+                    continue
+                good = False
+                site = sites.get(name)
+                if got == AV_UNK or not definite or site is None:
+                    add(missings, (rule_a, id(site), name), (site, name), desc)
+                else:
+                    add(bads, (rule_a, id(site), name), (site, (name, given, got)), desc)
+            if good:
+                reached.setdefault(desc, node)
+            if not definite:
+                continue
+            # (b) cold start exactly when no centres were supplied
+            if IC is not None:
+                if env[IC] == ('none',):
+                    for st, nm in events:
+                        if nm == IC:
+                            add(bads, (rule_b, id(st), 'none'), (st, None), desc)
+                else:
+                    site = sites.get(D)
+                    v = fi.def_value(site, D) if isinstance(site, (ast.Assign, ast.AnnAssign)) else None
+                    parts = _alloc_parts(cx(fi.expand(v))) if v is not None else None
+                    if parts is not None and parts[1] is not None and not isinstance(parts[1], str) \
+                            and av_of(parts[1], {})[0] in ('inf', 'inf2'):
+                        add(bads, (rule_b, id(site), 'cold'), (site, None), desc)
+            # (c) the iteration function of the mode
+            if callee is not None and MPI is not None and env.get(MPI, AV_UNK)[0] == 'bool':
+                got = e2.get(callee, AV_UNK)
+                want = ITER_FUNCS[1] if env[MPI][1] else ITER_FUNCS[0]
+                if got[0] == 'func' and got[1] != want:
+                    add(bads, (rule_c, id(sites.get(callee)), want), (sites.get(callee) or call, (want, got[1], env[MPI][1])), desc)
+                elif got[0] != 'func':
+                    add(missings, (rule_c, id(sites.get(callee)), 'callee'), (sites.get(callee), callee), desc)
+                else:
+                    reached.setdefault((rule_c, want), sites.get(callee) or call)
+
+    def shown(descs):
+        return '; '.join(sorted(set(descs)))[:200]
+    for (rule, _, what), ((node, info), descs) in bads.items():
+        if rule == rule_a and what == 'raise':
+            conds = ' and '.join(('' if a.polarity else 'not ') + '(%s)' % u(a.test)[:80] for a in fi.cfg.nodes
+                                 if isinstance(a, Assume) and fi.cfg.dominates(a, node))
+            ck.bad(rule, mod, node, 'kcenters', 'raise under %s' % (conds or '<no condition>'),
+                   'an admissible configuration is rejected before the main loop: for (%s) every branch condition on the way is '
+                   'decided and leads to `%s` at %s. K-centers must run for every combination of a cluster number and / or a '
+                   'radius cutoff; only a call without any stopping criterion may be refused' % (
+                       shown(descs), u(node)[:80], mod.loc(node)))
+        elif rule == rule_a:
+            name, given, got = info
+            ck.bad(rule, mod, node, 'kcenters', u(node)[:160],
+                   'for the configuration (%s) the stopping criterion `%s` given by the caller (%s) is overwritten with %s before '
+                   'the main loop: the loop then stops by a criterion that was not requested (too late / too early)' % (
+                       shown(descs), name, _av_show(given), _av_show(got)))
+        elif rule == rule_b and what == 'none':
+            ck.bad(rule, mod, node, 'kcenters', u(node)[:160],
+                   'without initial centres (%s is None; %s) the path taken iterates over `%s` at %s: the warm-start arm is '
+                   'selected when NO centres were supplied (TypeError on the default call), the cold start when they were' % (
+                       IC, shown(descs), IC, mod.loc(node)))
+        elif rule == rule_b:
+            ck.bad(rule, mod, node, 'kcenters', u(node)[:160],
+                   'with initial centres supplied (%s) the distances the main loop starts from are the cold-start array of +inf: '
+                   'the supplied centres are ignored and clustering restarts from frame 0' % shown(descs))
+        else:
+            want, got, mode = info
+            ck.bad(rule, mod, node, 'kcenters', u(node)[:160],
+                   'with mpi_mode=%s the main loop runs `%s`; the %s run must use `%s` (the serial iteration takes the argmax of the '
+                   'local distances, the MPI iteration all-gathers the local maxima: in the other mode the wrong farthest point is '
+                   'chosen / mpi is required for a serial run)' % (mode, got, 'MPI' if mode else 'serial', want))
+    for (rule, _, what), ((node, info), descs) in missings.items():
+        ck.missing(rule, 'value of `%s` at the main loop for the configuration (%s): bound by `%s`' % (
+            info, shown(descs), u(node)[:80] if node is not None else '?'))
+    n = 0
+    for key, node in reached.items():
+        if isinstance(key, tuple):
+            ck.ok(rule_c, mod, node, '%s selected' % key[1], 'the iteration function run by the main loop is the one of the mode')
+        else:
+            n += 1
+            ck.ok(rule_a, mod, node, key, 'configuration reaches the main loop with the criteria the caller gave')
+    if not bads and not missings:
+        ck.floor(rule_a, n, 5, 'admissible criteria combinations reaching the main loop')
+        if IC is not None:
+            ck.ok(rule_b, mod, w, 'cold start iff %s is None' % IC, 'the cold-start state is used exactly when no centres were supplied')
+
+
+# ---------------------------------------------------------------------------
+# D1 (warm start): the helper calls of the warm start receive their
+# arguments in the roles the helpers define
+
+def _callee_positions(ck, name, interface):
+    """Positions of the interface parameters of cluster.util.<name>, read
+    from its definition (falls back to the documented order)."""
+    from .cluster_common import CU
+    try:
+        P = params(ck.repo.mod(CU).func(name))
+    except (AnalysisIncomplete, KeyError):
+        P = []
+    if all(p in P for p in interface):
+        return {p: P.index(p) for p in interface}
+    return {p: i for i, p in enumerate(interface)}
+
+
+def d1_warm_args(ck):
+    """A warm start defines the state the farthest-point iteration continues
+    from: labels and running-minimum distances of every frame OF THE DATA with
+    respect to THE SUPPLIED CENTRES under THE METRIC, and one index per label.
+    The two library helpers that compute it take these by position: each
+    argument is classified against the role its parameter has."""
+    rule = 'C02.D1.warmstart.args'
+    mod = ck.repo.mod(KC)
+    K = kcenters_roles(ck, rule, mod)
+    if K is None:
+        return
+    fn, fi, w, call = K['fn'], K['fi'], K['loop'], K['call']
+    T, D, A = K['T'], K['D'], K['A']
+    P = params(fn)
+    IC = 'init_centers' if 'init_centers' in P else None
+    CEN = _centres_role(K, mod)
+    dm = arg_or_kw(call, 1, 'distance_method')
+    DM = dm.id if isinstance(dm, ast.Name) else None
+    if IC is None:
+        return
+    cen_forms = [f % x for x in ([CEN] if CEN else []) + [IC] for f in
+                 ('%s', 'list(%s)', '[_C for _C in %s]', 'np.asarray(%s)', '%s.copy()', 'tuple(%s)')]
+    scope = {x for x in (T, CEN, IC, DM, D, A) if x}
+    spec = {
+        'assign_to_nearest_center': (('trajectory', 'cluster_centers', 'distance_method'),
+                                     {'trajectory': ([T], 'the data'), 'cluster_centers': (cen_forms, 'the supplied centres'),
+                                      'distance_method': ([DM] if DM else None, 'the metric')}),
+        'find_cluster_centers': (('assignments', 'distances'),
+                                 {'assignments': ([A], 'the labels'), 'distances': ([D], 'the distances to the nearest centre')}),
+    }
+    n = 0
+    for c in calls_in(fn):
+        last = (call_name(c) or '').split('.')[-1]
+        if last not in spec or _inside(mod, c, w):
+            continue
+        interface, roles = spec[last]
+        pos = _callee_positions(ck, last, interface)
+        if any(isinstance(a, ast.Starred) for a in c.args) or any(k.arg is None for k in c.keywords):
+            ck.missing(rule, 'arguments of `%s`' % u(c)[:100])
+            continue
+        if last == 'assign_to_nearest_center':
+            n += 1
+        st = fi.stmt(c)
+        for pname in interface:
+            forms, what = roles[pname]
+            a = arg_or_kw(c, pos[pname], pname)
+            if a is None or forms is None:
+                ck.missing(rule, 'argument `%s` of `%s`' % (pname, u(c)[:100]))
+                continue
+            x = fi.expand(a, stop=tuple(scope), strict=False)
+            verdict = cls(x, forms, scope=scope)
+            if verdict[0] == 'near':
+                # positively wrong only if the argument IS the value of another role (possibly re-wrapped
+                # as list / array); some other expression of the roles is not judged
+                core = _strip(x)
+                while isinstance(core, ast.Call) and len(core.args) == 1 and not core.keywords and (
+                        (call_name(core) or '') in _LEN_WRAPPERS):
+                    core = core.args[0]
+                if isinstance(core, ast.Call) and isinstance(core.func, ast.Attribute) and core.func.attr == 'copy' \
+                        and not core.args and not core.keywords:
+                    core = core.func.value
+                if not (isinstance(core, ast.Name) and core.id in scope):
+                    verdict = ('far',) + tuple(verdict[1:])
+            ck.decide(verdict, rule, mod, st, 'kcenters', '%s: %s=%s' % (last, pname, u(a)[:80]),
+                      '%s receives %s as `%s`' % (last, what, pname),
+                      'the warm start must hand %s to parameter `%s` of %s (expected `%s`); found `%s`: the state the '
+                      'farthest-point iteration continues from (labels, running-minimum distances, one index per centre) is '
+                      'then not the assignment of the frames to the supplied centres' % (what, pname, last, forms[0], ctext(x)[:100]))
+        # the results, when unpacked directly, in the order the helper returns them
+        if last == 'assign_to_nearest_center' and isinstance(st, ast.Assign) and st.value is c and len(st.targets) == 1 \
+                and isinstance(st.targets[0], (ast.Tuple, ast.List)) and len(st.targets[0].elts) == 2 \
+                and all(isinstance(e, ast.Name) for e in st.targets[0].elts):
+            order = _assign_return_order(ck)
+            got = [e.id for e in st.targets[0].elts]
+            if order is not None and set(got) == {A, D}:
+                want = [A, D] if order == ('assignments', 'distances') else [D, A]
+                ck.check(got == want, rule, mod, st, 'kcenters', 'results of %s -> %s' % (last, ', '.join(got)),
+                         'labels and distances are taken from the helper in the order it returns them',
+                         'assign_to_nearest_center returns (%s); the warm start binds them as (%s): labels and distances are '
+                         'exchanged' % (', '.join(order), ', '.join(got)))
+    if n == 0:
+        ck.missing(rule, 'warm start: the call that assigns the frames to the supplied centres (assign_to_nearest_center)')
+
+
+def _assign_return_order(ck):
+    from .cluster_common import CU
+    try:
+        fn = ck.repo.mod(CU).func('assign_to_nearest_center')
+    except (AnalysisIncomplete, KeyError):
+        return None
+    rets = returns_of(fn)
+    if len(rets) != 1 or not isinstance(rets[0].value, ast.Tuple):
+        return None
+    names = tuple(e.id if isinstance(e, ast.Name) else None for e in rets[0].value.elts)
+    return names if set(names) == {'assignments', 'distances'} and len(names) == 2 else None
+
+
+# ---------------------------------------------------------------------------
+# D3 (assertions): no assertion of an iteration function contradicts the
+# contract under which kcenters calls it
+
+def _measure(e, lens, dims):
+    """('len', X) for len(X) / X.shape[0] / X.size with X a per-frame 1-d
+    array; ('ndim', X) for len(X.shape) / X.ndim / np.ndim(X)."""
+    for pat, kind in (('len(_X.shape)', 'ndim'), ('_X.ndim', 'ndim'), ('np.ndim(_X)', 'ndim'),
+                      ('len(_X)', 'len'), ('_X.shape[0]', 'len')):
+        b = match(pat, e)
+        if b is not None and isinstance(b['_X'], ast.Name):
+            nm = b['_X'].id
+            if (kind == 'len' and nm in lens) or (kind == 'ndim' and nm in dims):
+                return kind, nm
+    return None
+
+
+def d3_asserts(ck):
+    """An `assert` is a way out of the function.  kcenters hands the
+    iteration the data together with one distance and one label per frame
+    (C02.D1.coldstart: both allocated with len(traj); the warm start: both
+    returned per frame), and the candidate distances have the shape of the
+    current ones: an assertion that two of these lengths / numbers of
+    dimensions DIFFER (or are strictly ordered) fails on every admissible
+    call.  Any other assertion is not judged (extra assertions are free)."""
+    rule = 'C02.D3.assert-admissible'
+    mod = ck.repo.mod(KC)
+    for q in ITER_FUNCS:
+        fn = mod.func(q)
+        fi = finfo(mod, fn)
+        R = iteration_roles(fn)
+        T, D, A = R['T'], R['D'], R['A']
+        cand = {a.value.value.id for a, t in subscript_stores(fn, D) if isinstance(a, ast.Assign)
+                and isinstance(a.value, ast.Subscript) and isinstance(a.value.value, ast.Name)}
+        n = 0
+        for s in walk_local(fn):
+            if not isinstance(s, ast.Assert):
+                continue
+            cs = conjuncts(s.test, True)
+            if cs is None:
+                continue
+            lens = {x for x in (T, D, A) if fi.rd.defs_at(s, x) == {'PARAM'}}
+            dims = {x for x in (D, A) if fi.rd.defs_at(s, x) == {'PARAM'}} | cand
+            wrong = None
+            judged = False
+            for f in cs:
+                if isinstance(f, Cmp):
+                    l = _measure(cx(fi.expand(f.lhs)), lens, dims)
+                    r = _measure(cx(fi.expand(f.rhs)), lens, dims)
+                    if l is None or r is None or l[0] != r[0]:
+                        continue
+                    judged = True
+                    less = f.as_less()
+                    if f.op is ast.NotEq or (less is not None and less[1]):
+                        wrong = (f, l, r)
+                elif f[0] == 'expr' and f[2] is False and A in lens and \
+                        match('np.issubdtype(type(%s[__]), np.integer)' % A, f[1]) is not None:
+                    judged = True
+                    wrong = (f, ('dtype', A), ('dtype', 'integer'))
+            if wrong is not None:
+                f, l, r = wrong
+                what = {'len': 'length', 'ndim': 'number of dimensions', 'dtype': 'dtype'}[l[0]]
+                ck.bad(rule, mod, s, q, u(s)[:160],
+                       'this assertion demands that the %s of `%s` and of `%s` differ; kcenters calls the iteration with one '
+                       'distance and one label per frame of the data (and the candidate distances have the shape of the current '
+                       'ones, the labels are integers), so it fails - AssertionError - on every admissible call' % (what, l[1], r[1]))
+            elif judged:
+                n += 1
+                ck.ok(rule, mod, s, u(s)[:160], 'the assertion states the per-frame contract kcenters establishes')
+
+
 def check(ck):
     d1_farthest(ck)
     d1_precision(ck)
+    d1_warm_args(ck)
     d2_guard(ck)
     d2_warm_count(ck)
     d3_unbound(ck)
+    d3_asserts(ck)
     d4_criteria(ck)
+    d4_configurations(ck)
     d5_triangle(ck)
     d5_sole_writer(ck)
     kc = ck.repo.mod(KC)
